@@ -63,3 +63,88 @@ def s_expand_identity_rule(ctx):
 SCENARIOS.append(Scenario("C09.rules.ExpandIdentity", s_expand_identity_rule,
                           [("onnxscript/rewriter/rules/common/_basic_rules.py", "ExpandIdentity.check"), ("onnxscript/rewriter/rules/common/_basic_rules.py", "ExpandIdentity.rewrite")],
                           kind="bounded", bound="rank of x <= 2, target length <= 3; " + BOUND, trusted=TRUST, max_paths=20000))
+
+
+def s_scatter_all_static(ctx):
+    """_redundant_scatter_nd.ScatterAllStatic: ScatterND(data, indices, updates) -> Identity(updates) only if the scatter
+    overwrites every row of data: reduction none, indices = [[0], [1], ..., [d0-1]], updates shaped like data — for
+    every binding of symbolic dims; and check() never raises (a symbolic first dim is not an error of the model)."""
+    import onnx_ir as ir
+    from onnxscript.rewriter.rules.common import _redundant_scatter_nd as mod
+    I = Interp(ctx)
+    W = World(I)
+    d0_kind = ["0", "1", "2", "3", "N", "unknown"][ctx.choose(6, "first dim of data")]
+    rest_kind = ["int", "N", "none"][ctx.choose(3, "second dim of data")]
+
+    def mk_shape(tag, first, rest):
+        dims, rt = [], []
+        if first in ("N", "unknown"):
+            s_, t = W.dim(first, tag + "0")
+        else:
+            s_, t = int(first), z3.IntVal(int(first))
+        dims.append(s_)
+        rt.append(t)
+        if rest != "none":
+            s_, t = W.dim(rest, tag + "1") if rest != "int" else (4, z3.IntVal(4))
+            dims.append(s_)
+            rt.append(t)
+        return dims, rt
+    ddims, drt = mk_shape("d", d0_kind, rest_kind)
+    data = W.value("data", dims=ddims, rt=drt, dtype=ir.DataType.FLOAT)
+    same = ctx.choose(2, "updates annotated with the same shape") == 0
+    if same:
+        udims, urt = list(ddims), list(drt)
+    else:
+        udims, urt = mk_shape("u", ["1", "2", "N"][ctx.choose(3, "first dim of updates")], rest_kind)
+    updates = W.value("updates", dims=udims, rt=urt, dtype=ir.DataType.FLOAT)
+    k = ctx.choose(4, "number of index rows")
+    rows = []
+    for j in range(k):
+        t = ctx.int(f"row{j}")
+        ctx.witness[f"row{j}"] = t
+        rows.append([SInt(t)])
+    known = ctx.choose(2, "indices constant") == 0
+    tens = SObj(ir.Tensor, "indices_tensor")
+    arr = SObj(object, "indices_array")
+
+    def f_tolist():
+        raise AssertionError
+
+    def f_numpy():
+        raise AssertionError
+    I.models[f_tolist] = lambda interp: [list(r) for r in rows]
+    I.models[f_numpy] = lambda interp: arr
+    arr.fields["tolist"] = f_tolist
+    tens.fields["numpy"] = f_numpy
+    indices = W.value("indices", dims=[k, 1], rt=[], dtype=ir.DataType.INT64, const=(tens if known else None), initializer=known)
+    red = [None, "none", "add", "mul"][ctx.choose(4, "reduction attribute")]
+    node = W.node("ScatterND", [data, indices, updates], attrs=({} if red is None else {"reduction": red}))
+    I.models[ir.Attr.as_string] = lambda interp, a: a.fields["value"] if isinstance(a, SObj) else a.as_string()
+    context = SObj(object, "context")
+    context.fields.update(root=node, nodes=[node])
+    rule = SObj(mod.ScatterAllStatic, "rule")
+    try:
+        chk = I.call(I.getattr(rule, "check"), [context, data, indices, updates])
+        fired = I.truth(chk)
+    except PyRaise as e:
+        ctx.check("C04.rules.ScatterAllStatic.check_never_raises", False, CL04 + f" — raised {type(e.exc).__name__}")
+        return
+    ctx.check("C04.rules.ScatterAllStatic.check_never_raises", True, CL04)
+    if not fired:
+        ctx.cover("ScatterAllStatic.check_failed")
+        return
+    ctx.check("C05.rules.ScatterAllStatic.fires_only_without_a_reduction", red in (None, "none"),
+              "C05: 'same outputs ... equal values' — ScatterND with reduction add/mul combines updates WITH data")
+    d0 = drt[0]
+    cover = z3.And(z3.IntVal(k) == d0, *[r[0].t == j for j, r in enumerate(rows)])
+    ctx.check("C09.rules.ScatterAllStatic.indices_cover_every_row_of_data_for_every_binding", cover if known else False, CL09)
+    ctx.check("C05.rules.ScatterAllStatic.indices_cover_every_row_of_data_for_every_binding", cover if known else False, CL09)
+    shp = z3.And(z3.BoolVal(len(urt) == len(drt)), *[a == b for a, b in zip(urt, drt)])
+    ctx.check("C09.rules.ScatterAllStatic.updates_have_the_shape_of_data_for_every_binding", shp, CL09)
+
+
+SCENARIOS.append(Scenario("C05.rules.ScatterAllStatic", s_scatter_all_static,
+                          [("onnxscript/rewriter/rules/common/_redundant_scatter_nd.py", "ScatterAllStatic.check"),
+                           ("onnxscript/rewriter/rules/common/_redundant_scatter_nd.py", "ScatterAllStatic.rewrite")],
+                          kind="bounded", bound="data of rank 1-2, first dim 0..3 / named / unknown, <= 3 index rows (values symbolic)",
+                          trusted=TRUST + ["ONNX ScatterND: output = data with row indices[j] replaced by (or, with a reduction, combined with) updates[j]"], max_paths=40000))
